@@ -373,7 +373,7 @@ Qed.
 (* ------------------------------------------------------------------ the handlers of the code *)
 Definition code_handlers_ok : list handler :=
   [h_claim_matured_one; h_claim_rewards; h_tip_request; h_tip_cancel; h_tip_handle; h_l2_reclaim;
-   h_collective_withdraw; h_bank_send; h_claim_undelegation_fixed; h_l2_join_verifier_fixed].
+   h_collective_withdraw; h_bank_send; h_claim_undelegation; h_l2_join_verifier_fixed].
 Lemma code_handlers_ok_wf : forallb (fun h => wf_auth h && mods_ok std_is_module h) code_handlers_ok = true.
 Proof. vm_compute. reflexivity. Qed.
 
@@ -390,7 +390,8 @@ Proof.
   eapply (wf_handler_no_foreign_debit std_is_module h m s s'); eauto.
 Qed.
 
-(* the three handlers of the unchanged tree that fail the check, each refuted by a witness *)
+(* handlers that fail the check, each refuted by a witness: JoinDappVerifierWithBond and the custody
+   reward as the code has them, and the ClaimUndelegation variant without the owner comparison *)
 Definition no_foreign_debit (h : handler) : Prop :=
   forall m s s', claims_nonneg (claims s) = true -> exec h m s = Ok s' ->
   forall a, ~ In a (m_signers m) -> std_is_module a = false ->
@@ -404,11 +405,11 @@ Definition w_state_undel : state := mkState w_bal [mkClaim "undelegation" 7 1 No
 Definition w_msg_undel : msg := mkMsg [2] [] [7] [] [true].          (* account 2 claims undelegation 7 of account 1 *)
 Definition get_state (o : outcome state) (dflt : state) : state := match o with Ok s => s | _ => dflt end.
 
-Theorem claim_undelegation_refuted : ~ no_foreign_debit h_claim_undelegation.
+Theorem claim_undelegation_unguarded_refuted : ~ no_foreign_debit h_claim_undelegation_unguarded.
 Proof.
   intros H.
-  assert (E : exec h_claim_undelegation w_msg_undel w_state_undel
-              = Ok (get_state (exec h_claim_undelegation w_msg_undel w_state_undel) w_state_undel)) by (vm_compute; reflexivity).
+  assert (E : exec h_claim_undelegation_unguarded w_msg_undel w_state_undel
+              = Ok (get_state (exec h_claim_undelegation_unguarded w_msg_undel w_state_undel) w_state_undel)) by (vm_compute; reflexivity).
   specialize (H w_msg_undel w_state_undel _ eq_refl E 1).
   assert (N : ~ In 1 (m_signers w_msg_undel)) by (cbn; intros [K|[]]; discriminate).
   specialize (H N eq_refl).
@@ -447,14 +448,14 @@ Proof.
 Qed.
 
 (* with the owner comparison / the signer as the debited side the statement holds *)
-Theorem claim_undelegation_fixed_safe : no_foreign_debit h_claim_undelegation_fixed.
-Proof. unfold no_foreign_debit; intros; eapply (claim_pays_recorded_owner h_claim_undelegation_fixed); eauto; cbn; tauto. Qed.
+Theorem claim_undelegation_safe : no_foreign_debit h_claim_undelegation.
+Proof. unfold no_foreign_debit; intros; eapply (claim_pays_recorded_owner h_claim_undelegation); eauto; cbn; tauto. Qed.
 Theorem join_verifier_fixed_safe : no_foreign_debit h_l2_join_verifier_fixed.
 Proof. unfold no_foreign_debit; intros; eapply (claim_pays_recorded_owner h_l2_join_verifier_fixed); eauto; cbn; tauto. Qed.
 
 (* the static check rejects exactly these (non-vacuity of the check itself) *)
 Lemma code_handlers_bad_rejected :
-  wf_auth h_claim_undelegation = false /\ wf_auth h_l2_join_verifier = false /\ wf_auth h_custody_reward = false.
+  wf_auth h_claim_undelegation_unguarded = false /\ wf_auth h_l2_join_verifier = false /\ wf_auth h_custody_reward = false.
 Proof. vm_compute. auto. Qed.
 
 (* ------------------------------------------------------------------ custody approval *)
@@ -570,11 +571,11 @@ Qed.
 
 (* non-vacuity *)
 Example nonvacuous_claim :
-  exists s', exec h_claim_undelegation_fixed (mkMsg [1] [] [7] [] [true]) w_state_undel = Ok s'
+  exists s', exec h_claim_undelegation (mkMsg [1] [] [7] [] [true]) w_state_undel = Ok s'
              /\ bal s' 1 "ukex"%string = 1500 /\ claims s' = [].
 Proof. eexists. split; [vm_compute; reflexivity|]. split; vm_compute; reflexivity. Qed.
 Example nonvacuous_rejected :
-  exec h_claim_undelegation_fixed w_msg_undel w_state_undel = Err "not owner".
+  exec h_claim_undelegation w_msg_undel w_state_undel = Err "not owner".
 Proof. vm_compute. reflexivity. Qed.
 
 Lemma sites_checked : forall audited hs, check_sites audited hs = true ->
